@@ -2,11 +2,15 @@ use crate::log::Log;
 use crate::{Cfg, Meta};
 
 pub mod c01;
+pub mod c02;
+pub mod c03;
 pub mod c10;
 
 pub fn dispatch(prop: &str, cfg: &Cfg) -> Option<(Log, Meta)> {
   Some(match prop {
     "C01" => c01::run(cfg),
+    "C02" => c02::run(cfg),
+    "C03" => c03::run(cfg),
     _ => return None,
   })
 }
